@@ -163,6 +163,8 @@ pub fn show_msgs(ms: &[Message]) -> String {
 }
 
 pub struct SimScenario {
+    pub cbs: Vec<Vec<String>>,
+    pub mc_runs: usize,
     pub sys: System,
     pub scripts: HashMap<String, Rc<RefCell<Script>>>,
     pub trace_seen: usize,
@@ -172,6 +174,8 @@ pub struct SimScenario {
 impl SimScenario {
     pub fn new(seed: u64) -> Self {
         Self {
+            cbs: vec![],
+            mc_runs: 0,
             sys: System::new(seed),
             scripts: HashMap::new(),
             trace_seen: 0,
@@ -373,6 +377,83 @@ impl SimScenario {
                 vec![self.obs("ok", false)]
             }
             "obs" => self.full(),
+            "refenum" => vec![],
+            "cb" => {
+                self.cbs.push(ws[1..].iter().map(|s| s.to_string()).collect());
+                vec![]
+            }
+            "proj" => {
+                let mut nodes = self.sys.nodes();
+                nodes.sort();
+                let mut out = vec![];
+                for n in &nodes {
+                    let node = self.sys.get_node(n).unwrap();
+                    let mut procs = node.process_names();
+                    procs.sort();
+                    let ps: Vec<String> = procs
+                        .iter()
+                        .map(|p| {
+                            let st = node
+                                .get_process(p)
+                                .unwrap()
+                                .state()
+                                .unwrap()
+                                .downcast_ref::<String>()
+                                .cloned()
+                                .unwrap_or_default();
+                            format!("{}:{};o={}", p, st, show_msgs(&node.local_outbox(p)))
+                        })
+                        .collect();
+                    out.push(format!(
+                        "{}:c{}{{{}}}",
+                        n,
+                        if node.is_crashed() { 1 } else { 0 },
+                        ps.join("/")
+                    ));
+                }
+                vec![format!("proj N{} F[] T[]", show_list(&out))]
+            }
+            "mc" => {
+                // ModelChecker::new(&sys) followed by one run; the System must not be affected
+                use anysystem::mc::strategies::{Bfs, Dfs};
+                use anysystem::mc::{McSystem, ModelChecker};
+                let k = self.mc_runs;
+                self.mc_runs += 1;
+                let loc: HashMap<String, String> = self
+                    .sys
+                    .process_names()
+                    .iter()
+                    .map(|p| (p.clone(), self.sys.proc_node_name(p)))
+                    .collect();
+                let rec = Rc::new(RefCell::new(Vec::new()));
+                let config = crate::mc::make_config(&ws[1..], &loc, rec.clone());
+                let cbs = std::mem::take(&mut self.cbs);
+                let loc2 = loc.clone();
+                let cb = move |sys: &mut McSystem| {
+                    for op in &cbs {
+                        crate::mc::mc_cb_op(sys, &loc2, op);
+                    }
+                };
+                let res = catch_unwind(AssertUnwindSafe(|| {
+                    let mut mc = ModelChecker::new(&self.sys);
+                    let res = if ws.get(2) == Some(&"bfs") {
+                        mc.run_with_change::<Bfs>(config, cb)
+                    } else {
+                        mc.run_with_change::<Dfs>(config, cb)
+                    };
+                    crate::mc::summarize(res, &rec)
+                }));
+                match res {
+                    Ok(out) => crate::mc::run_lines(k, &out),
+                    Err(e) => {
+                        if e.downcast_ref::<crate::mc::Capped>().is_some() {
+                            vec![format!("run {} result=capped", k)]
+                        } else {
+                            std::panic::resume_unwind(e)
+                        }
+                    }
+                }
+            }
             _ => vec![format!("bad-op {}", ws.join(" "))],
         }
     }
